@@ -269,6 +269,31 @@ def run(chk, binary):
         if untxt(mrest) != after or [untxt(r) for r in mrows] != [t]:
             chk.violation("correspondence:drain + register write", dict(case0, impl_after=after, model_after=untxt(mrest), impl_reg=t, model_reg=[untxt(r) for r in mrows]), concrete=False)
     chk.cov["traces_validated_against_impl"] = len(ecases)
+    # ---- every named register: what goes into one comes out of it, whatever its neighbours hold ----
+    import string
+    rreqs, rmeta = [], []
+    for L_ in string.ascii_lowercase:
+        others = [x for x in string.ascii_lowercase if x != L_]
+        M_ = rng.choice([chr(ord(L_) - 1) if L_ != "a" else "b", chr(ord(L_) + 1) if L_ != "z" else "y", rng.choice(others)])
+        word1, word2 = rng.choice([("foo", "bar"), ("é1", "ü2"), ("one", "two")])
+        text = f"{word1} {word2} baz\n"
+        variants = [([f'"{L_}yiw', f'w"{M_}yiw', f'$"{L_}p'], text[:-1] + word1 + "\n", word1),
+                    ([f'"{M_}yiw', f'w"{L_}yiw', f'$"{L_}p'], text[:-1] + word2 + "\n", word2),
+                    ([f'"{L_}yiw', f'w"{L_.upper()}yiw', f'"{M_}yiw', f'$"{L_}p'], text[:-1] + word1 + word2 + "\n", word1 + word2)]
+        for keys, exp, regexp in variants:
+            rreqs.append({"op": "keys", "text": text, "cursor": 0, "keys": keys})
+            rmeta.append((L_, M_, text, keys, exp, regexp))
+    for (L_, M_, text, keys, exp, regexp), a in zip(rmeta, server_map(binary, rreqs)):
+        chk.count(("c08-register", L_, M_, tuple(keys)), nontrivial=True)
+        dist["named_register_roundtrips"] = dist.get("named_register_roundtrips", 0) + 1
+        st = (a.get("steps") or [{}])[-1]
+        if "buf" not in st:
+            chk.violation("spec:panic on a register command", {"text": text, "keys": keys, "answer": str(st)[:200]})
+            continue
+        got_reg = (st.get("regs", {}).get(L_) or {}).get("t")
+        if st["buf"] != exp or got_reg != regexp:
+            chk.violation("spec:a named register does not give back what was put into it", {"text": text, "keys": keys, "register": L_, "neighbour": M_,
+                          "text_after": st["buf"], "expected_text": exp, "register_holds": got_reg, "expected_register": regexp})
     chk.cov["input_distribution"] = dist
     chk.sample({"text": meta[0][0], "cursor": meta[0][1], "keys": meta[0][4]})
     chk.cov["rule"] = ("(text incl. multi-byte graphemes before/inside/after the span, every start cursor, one operator command: x X d c y dd yy D g~ gu gU g? r ~ with all motions/text objects and counts, "
